@@ -199,6 +199,11 @@ def evalop_class(fx, b, bb, t, args):
             if cv and "bits" in cv[0]:
                 bits = cv[0]["bits"]
                 consts.append(bits - 65536 if bits >= 32768 else bits)
+    if fn.startswith("engine::eval::") and ty == "WhiteEval" and op in ("mul", "div"):
+        # scaling the blended evaluation is not a sum of bounded terms: |eval| * k leaves i16 for k >= 2 already near the mate threshold
+        k_ok = any(isinstance(c0, int) and abs(c0) <= 1 for c0 in consts) if op == "mul" else bool(consts) and all(c0 != 0 for c0 in consts)
+        if not k_ok:
+            return None
     if fn.startswith("engine::eval::") and ty in ("PhasedEval", "WhiteEval"):
         return "eval-terms", "evaluation terms summed in packed/plain score arithmetic; magnitudes bounded by C16-BOUND"
     if fn.endswith("see::see") and ty == "Eval":
